@@ -121,7 +121,7 @@ func TestWorker(t *testing.T) {
 		tape := core.NewTape(seed)
 		tape.NoTrace = true
 		t0 := time.Now()
-		res := RunOne(t, prop, tape, RunOpts{Tier: tier})
+		res := RunOne(t, prop, tape, RunOpts{Tier: tier, Real: os.Getenv("VERIF_REAL") != ""})
 		if d := time.Since(t0); d > 400*time.Millisecond {
 			out.Probes["slow_runs_over_400ms"]++
 			fmt.Fprintf(os.Stderr, "SLOW index=%d ms=%d steps=%d status=%s\n", idx, d.Milliseconds(), res.Steps, res.Status)
@@ -150,6 +150,11 @@ func TestWorker(t *testing.T) {
 				continue // one replay per class per worker is enough
 			}
 			classesSeen[v.Class] = true
+			if os.Getenv("VERIF_REAL") != "" {
+				// free-running world: not replayable, report as is
+				out.Violations = append(out.Violations, &ViolationRec{Prop: id, Seed: seed, Index: idx, Class: v.Class, Msg: v.Msg, Tier: tier})
+				continue
+			}
 			rec := minimise(t, prop, tier, tape.Values(), v)
 			rec.Seed, rec.Index = seed, idx
 			out.Violations = append(out.Violations, rec)
